@@ -611,6 +611,153 @@ pub fn relay_scenario(name: &str, depth: usize, extra: &[Op]) -> Scenario {
 /// refresh, time travel, resolutions, stage round trip, sync / meld / block-only copies between all
 /// replicas), explored to a small depth. Every engine-H property adds these to its own scenarios, so a
 /// state shape introduced for one property is seen by the oracles of all the others.
+// ---------------------------------------------------------------------------------------------------
+// "Unusual combination" scenarios (added after round 10 of the seeded changes): small alphabets of operations
+// that ordinary use rarely chains, explored deep from a prepared state.
+
+/// A flattened array (string elements when `strings`, tracked objects otherwise) in conflict on replica 1;
+/// then snapshot / discard / edit / commit / time travel / reopen in every order.
+pub fn snapshot_conflict_scenario(name: &str, strings: bool, depth: usize, extra: &[Op]) -> Scenario {
+    let docs = if strings {
+        vec![json!({"l♭":["a","b","c"]}), json!({"l♭":["a","b","c","x"]}), json!({"l♭":["y","a","b","c"]}), json!({"l♭":["b","c","x"]}), json!({"l♭":["a","c"]})]
+    } else {
+        vec![json!({"l♭":[x(), y()]}), json!({"l♭":[x(), y(), z()]}), json!({"l♭":[{"_id":"w","v":1}, x(), y()]}), json!({"l♭":[y(), z()]}), json!({"l♭":[x()]})]
+    };
+    let mut alphabet = vec![Op::Snapshot(1), Op::Unstage(1), Op::Upd(1, 3), Op::Upd(1, 4), Op::Commit(1, 0), Op::Reopen(1), Op::Travel(1, 0), Op::Travel(1, 1), Op::Reload(1), Op::Sync(0, 1)];
+    alphabet.extend_from_slice(extra);
+    let mut sc = Scenario {
+        name: name.to_string(),
+        nrep: 2,
+        menu: menu(docs),
+        prologue: vec![Op::Upd(0, 0), Op::Commit(0, 0), Op::Sync(1, 0), Op::Upd(0, 1), Op::Commit(0, 0), Op::Upd(1, 2), Op::Commit(1, 0), Op::Sync(1, 0)],
+        alphabet,
+        key_opts: KeyOpts::default(),
+        max_depth: depth,
+        track: true,
+        order: None,
+    };
+    sc.key_opts.heads = true;
+    sc.key_opts.acache = true;
+    sc
+}
+
+/// Stage export / commit / replay of the export (on the same replica and on the other one) / further edit /
+/// discard, in every order.
+pub fn replay_after_commit_scenario(name: &str, depth: usize, extra: &[Op]) -> Scenario {
+    let docs = vec![json!({"l♭":[x(), y()]}), json!({"l♭":[x2(), y(), z()]}), json!({"l♭":[{"_id":"x","v":3}, y(), z()]}), json!({"l♭":[y()]})];
+    let mut alphabet = vec![Op::Upd(0, 1), Op::Upd(0, 2), Op::StageSave(0), Op::Commit(0, 0), Op::StageReplay(0), Op::Unstage(0), Op::Sync(1, 0), Op::StageReplayFrom(1, 0), Op::Upd(1, 2), Op::Unstage(1), Op::Reopen(0)];
+    alphabet.extend_from_slice(extra);
+    Scenario {
+        name: name.to_string(),
+        nrep: 2,
+        menu: menu(docs),
+        prologue: vec![Op::Upd(0, 0), Op::Commit(0, 0), Op::Sync(1, 0)],
+        alphabet,
+        key_opts: KeyOpts::default(),
+        max_depth: depth,
+        track: true,
+        order: None,
+    }
+}
+
+/// History v1, v2, v1 (the third block reverts the second); then time travel and commits that may re-create a
+/// block that already exists in storage, byte for byte.
+pub fn travel_identical_scenario(name: &str, depth: usize, extra: &[Op]) -> Scenario {
+    let docs = vec![json!({"l♭":[x(), y()]}), json!({"l♭":[x2(), y()]}), json!({"l♭":[{"_id":"x","v":3}, y()]})];
+    let mut alphabet = vec![Op::Travel(0, 0), Op::Travel(0, 1), Op::Upd(0, 0), Op::Upd(0, 1), Op::Upd(0, 2), Op::Commit(0, 0), Op::Commit(0, 1), Op::Reload(0), Op::Reopen(0), Op::Refresh(0)];
+    alphabet.extend_from_slice(extra);
+    let mut sc = Scenario {
+        name: name.to_string(),
+        nrep: 1,
+        menu: menu(docs),
+        prologue: vec![Op::Upd(0, 0), Op::Commit(0, 0), Op::Upd(0, 1), Op::Commit(0, 0), Op::Upd(0, 0), Op::Commit(0, 0)],
+        alphabet,
+        key_opts: KeyOpts::default(),
+        max_depth: depth,
+        track: true,
+        order: None,
+    };
+    sc.key_opts.heads = true;
+    sc
+}
+
+/// Discard and redo: staged changes are thrown away (unstage, remove_object, reload) and the same content is
+/// submitted again; an unrelated object is given exactly the content of an array element.
+pub fn discard_redo_scenario(name: &str, depth: usize, extra: &[Op]) -> Scenario {
+    let docs = vec![json!({"l♭":[x(), y()]}), json!({"l♭":[x(), y(), {"_id":"z","v":7}]}), json!({"l♭":[{"_id":"x","v":7}, y()]})];
+    let mut alphabet = vec![Op::Upd(0, 1), Op::Upd(0, 2), Op::Unstage(0), Op::Commit(0, 0), Op::Reopen(0), Op::ObjPut(0, 107), Op::ObjRemove(0, 0), Op::Reload(0), Op::Sync(1, 0)];
+    alphabet.extend_from_slice(extra);
+    Scenario {
+        name: name.to_string(),
+        nrep: 2,
+        menu: menu(docs),
+        prologue: vec![Op::Upd(0, 0), Op::Commit(0, 0), Op::Sync(1, 0)],
+        alphabet,
+        key_opts: KeyOpts::default(),
+        max_depth: depth,
+        track: true,
+        order: None,
+    }
+}
+
+/// Replica 1 holds replica 0's block without its pack (plain copy of the block file, refreshed: held back); what
+/// the block waits for may then be supplied by replica 1's OWN commit of the same edit.
+pub fn local_supply_scenario(name: &str, depth: usize, extra: &[Op]) -> Scenario {
+    let docs = vec![json!({"l♭":[x(), y()]}), json!({"l♭":[x(), y(), z()]}), json!({"l♭":[x2(), y()]})];
+    let mut alphabet = vec![Op::Upd(1, 1), Op::Upd(1, 2), Op::Commit(1, 0), Op::Commit(1, 1), Op::Refresh(1), Op::Sync(0, 1), Op::CopyAll(1, 0), Op::Reopen(1)];
+    alphabet.extend_from_slice(extra);
+    Scenario {
+        name: name.to_string(),
+        nrep: 2,
+        menu: menu(docs),
+        prologue: vec![Op::Upd(0, 0), Op::Commit(0, 0), Op::Sync(1, 0), Op::Upd(0, 1), Op::Commit(0, 0), Op::CopyDeltas(1, 0), Op::Refresh(1)],
+        alphabet,
+        key_opts: KeyOpts::default(),
+        max_depth: depth,
+        track: true,
+        order: None,
+    }
+}
+
+/// A line A -> B -> C with a commit at each hop: B and C hold the same array conflict, each commits its own
+/// further change (which also resolves that conflict automatically: two different blocks carrying the same
+/// revisions), then the ring is closed.
+pub fn ring_scenario(name: &str, depth: usize, extra: &[Op]) -> Scenario {
+    let a = arr_docs();
+    let docs = vec![a[0].clone(), a[2].clone(), a[5].clone(), a[9].clone()];
+    let mut alphabet = vec![Op::Sync(0, 1), Op::Sync(0, 2), Op::Sync(1, 2), Op::Sync(2, 1), Op::Sync(1, 0), Op::Sync(2, 0), Op::Reopen(0), Op::Reopen(1), Op::CopyAll(0, 2)];
+    alphabet.extend_from_slice(extra);
+    Scenario {
+        name: name.to_string(),
+        nrep: 3,
+        menu: menu(docs),
+        prologue: vec![
+            Op::Upd(0, 0), Op::Commit(0, 0), Op::Sync(1, 0), Op::Sync(2, 1),
+            Op::Upd(0, 1), Op::Commit(0, 0), Op::Upd(1, 2), Op::Commit(1, 0),
+            Op::Sync(1, 0), Op::Sync(2, 1),
+            Op::ObjPut(1, 1), Op::Commit(1, 0), Op::ObjPut(2, 2), Op::Commit(2, 0),
+        ],
+        alphabet,
+        key_opts: KeyOpts::default(),
+        max_depth: depth,
+        track: true,
+        order: None,
+    }
+}
+
+pub fn combo_scenarios(thorough: bool) -> Vec<Scenario> {
+    let d = |q: usize, t: usize| if thorough { t } else { q };
+    vec![
+        snapshot_conflict_scenario("combo-snapshot-in-conflict", false, d(4, 5), &[]),
+        snapshot_conflict_scenario("combo-snapshot-in-conflict-strings", true, d(4, 5), &[]),
+        replay_after_commit_scenario("combo-replay-after-commit", d(5, 6), &[]),
+        travel_identical_scenario("combo-travel-identical-commit", d(4, 5), &[]),
+        discard_redo_scenario("combo-discard-and-redo", d(5, 6), &[]),
+        local_supply_scenario("combo-local-commit-supplies-a-held-back-block", d(4, 5), &[]),
+        ring_scenario("combo-ring", d(3, 4), &[]),
+    ]
+}
+
 pub fn cross_scenarios(thorough: bool) -> Vec<Scenario> {
     cross_scenarios_depth(if thorough { 2 } else { 1 })
 }
